@@ -46,8 +46,22 @@ func hookTokens(text string) string {
 			} else if m := hookPredicateRegexp.FindAllStringSubmatch(t.Text, 2); len(m) == 1 && len(m[0]) == 3 {
 				payload = "R." + hx(m[0][1]) + "." + hx(m[0][2])
 			}
+		case lexer.ItemTime:
+			// collectGlobalBounds (and the HAVING evaluator): time.Parse of the trimmed text
+			payload = "bad"
+			if ta, err := time.Parse(time.RFC3339Nano, strings.TrimSpace(t.Text)); err == nil {
+				payload = encTimeP(&ta)
+			}
 		case lexer.ItemPredicateBound:
 			payload = "bad"
+			// the bound of a global BETWEEN: two times separated by a comma
+			if bs := strings.Split(strings.TrimSpace(t.Text), ","); len(bs) == 2 && !strings.HasPrefix(t.Text, `"`) {
+				lo, err1 := time.Parse(time.RFC3339Nano, strings.TrimSpace(bs[0]))
+				hi, err2 := time.Parse(time.RFC3339Nano, strings.TrimSpace(bs[1]))
+				if err1 == nil && err2 == nil {
+					payload = "G." + encTimeP(&lo) + "." + encTimeP(&hi)
+				}
+			}
 			if m := hookBoundRegexp.FindAllStringSubmatch(t.Text, 2); len(m) == 1 && len(m[0]) == 4 {
 				id, tl, tu := m[0][1], m[0][2], m[0][3]
 				ok := true
